@@ -1,7 +1,7 @@
 """C04 — optimize() is total on valid models; result valid, same interface."""
 import re
 
-MODULES = ["contracts.c03_folding", "contracts.c04_process", "contracts.c07_rewrite", "contracts.c05_rules", "contracts.c05_batchnorm", "contracts.c05_basic"]
+MODULES = ["contracts.c03_folding", "contracts.c04_process", "contracts.c07_rewrite", "contracts.c05_rules", "contracts.c05_batchnorm", "contracts.c05_basic", "contracts.c04_pipeline"]
 HEAD = "import sys\nsys.path.insert(0, '/verif')\nfrom replay_lib.opt_native import main\n"
 
 
@@ -12,6 +12,8 @@ def INCLUDE(name):
 
 def replay(ob):
     n = ob["name"]
+    if "optimize_ir.value_names_are_unique" in n:
+        return HEAD + "main(['pipeline_names'])\n"
     if ".gather." in n:
         return HEAD + "main(['gather'])\n"
     if "none_for_graph_inputs" in n:
